@@ -653,32 +653,34 @@ def PRes.ids {β : Type} : PRes (List α × β) → PRes (List α)
 
 /-- **the stack machine (on tree positions) computes the recursive specification**, for every
     message, given enough fuel. -/
-theorem machine_refines [DecidableEq α] (H : α → α → α) (n : Nat) (root : α) (bits : List Bool)
+theorem machine_refines [DecidableEq α] (H : α → α → α) (maxTx n : Nat) (root : α) (bits : List Bool)
     (hashes : List α) :
-    ∃ k, ∀ f, (machine (treeOps n) H n root bits hashes (k + f)).ids =
-      (extractTop H n root bits hashes).ids := by
+    ∃ k, ∀ f, (machine (treeOps n) H maxTx n root bits hashes (k + f)).ids =
+      (extractTop H maxTx n root bits hashes).ids := by
   unfold machine extractTop
   by_cases hn : n = 0
   · exact ⟨0, fun f => by simp [hn]⟩
-  · by_cases hb : bits.isEmpty = true
-    · exact ⟨0, fun f => by simp [hn, hb]⟩
-    · simp only [hn, if_false, hb]
-      have hs := sim n H root (treeHeight n) 0 [] bits hashes [] []
-        (root_alive n _ (by omega)) ⟨by intro p x h; simp at h, by intro pb b pa a q rest h; simp at h⟩
-      cases he : extract H n (treeHeight n) 0 bits hashes with
-      | error e =>
-        obtain ⟨k, hk⟩ := hs.1 e he
-        exact ⟨k, fun f => by
-          have := hk f
+  · by_cases hm : n > maxTx
+    · exact ⟨0, fun f => by simp [hn, hm]⟩
+    · by_cases hb : bits.isEmpty = true
+      · exact ⟨0, fun f => by simp [hn, hm, hb]⟩
+      · simp only [hn, if_false, hm, hb]
+        have hs := sim n H root (treeHeight n) 0 [] bits hashes [] []
+          (root_alive n _ (by omega)) ⟨by intro p x h; simp at h, by intro pb b pa a q rest h; simp at h⟩
+        cases he : extract H n (treeHeight n) 0 bits hashes with
+        | error e =>
+          obtain ⟨k, hk⟩ := hs.1 e he
+          exact ⟨k, fun f => by
+            have := hk f
+            simp only [treeOps] at this ⊢
+            rw [this]⟩
+        | ok s =>
+          obtain ⟨k, p', nodes', _, hk⟩ := hs.2 s he
+          refine ⟨k + 1, fun f => ?_⟩
+          have := hk (f + 1)
           simp only [treeOps] at this ⊢
-          rw [this]⟩
-      | ok s =>
-        obtain ⟨k, p', nodes', _, hk⟩ := hs.2 s he
-        refine ⟨k + 1, fun f => ?_⟩
-        have := hk (f + 1)
-        simp only [treeOps] at this ⊢
-        rw [show k + 1 + f = k + (f + 1) by omega, this]
-        simp only [run, step, List.nil_append]
-        by_cases hr : s.hash = root <;> simp [hr, PRes.ids]
+          rw [show k + 1 + f = k + (f + 1) by omega, this]
+          simp only [run, step, List.nil_append]
+          by_cases hr : s.hash = root <;> simp [hr, PRes.ids]
 
 end ElaVerif.PMT
